@@ -70,7 +70,7 @@ def main():
         shutil.copy("/repo/dimarray/_version.py", wt + "/dimarray/_version.py")
         import re
         # demos written by the sub-agents may assert that dimarray is imported from THEIR worktree path: point them at this one
-        open(wt + "/_demo.py", "w").write(re.sub(r"/tmp/w[t23]-C\d+", wt, open(a.demo).read()))
+        open(wt + "/_demo.py", "w").write(re.sub(r"/tmp/w[t2-9]-C\d+", wt, open(a.demo).read()))
         env = dict(os.environ, PYTHONPATH=os.path.join(VERIF, "mc", "standin") + os.pathsep + wt)   # netCDF4 stand-in for demos that need it
         d0 = sh(["/venv/bin/python", "_demo.py"], cwd=wt, env=env)
         out["demo_clean_exit"] = d0.returncode
